@@ -35,3 +35,13 @@ package xml
 //@   ensures C18.one-encode-of-the-argument: err == nil ==> encRef == valof(data) && encTag == tagof(data) && encVer == msgver && encCount == old(encCount) + 1
 //@   ensures C18.at-most-one-encode: encCount <= old(encCount) + 1
 //@   ensures error-means-nothing: err != nil ==> len(out) == 0
+//@
+//@ func xml.DecodeAuthNRequest
+//@   inline
+//@   names req, err
+//@   property C06
+//@   enter decCalls = decCalls + 1
+//@   enter decEnc = encoding
+//@   enter decMsg = message
+//@   leave decOK = (err == nil)
+//@   leave decObj = req
